@@ -5,6 +5,7 @@ from ..cfg import cfg_of, N, X
 from ..errors import AnalysisError
 from ..roles import Roles
 from .. import q, kit
+from . import common
 
 EXPLANATION = (
     "Static rules over the CFGs of the scheduler's batch selection / flush methods and of "
@@ -307,6 +308,25 @@ def run(R):
         and isinstance(rets[0].elts[0], ast.Constant) and isinstance(rets[0].elts[0].value, int)
     R.check(okp, "C05.DEFAULT-PRIORITY", gp.qualname, R.site(gp), "by default a batch's priority is (constant base, number of items): the fullest batch is flushed first",
             "the default get_priority() is no longer (base, len(self.items)): %s" % [q.src(r) if r is not None else None for r in rets])
+    # ... and a user's override may return any comparable value: the .pxd does not narrow the hook's result type
+    bb = ro.BatchBase
+    pxd_gp = bb.pxd.methods.get("get_priority") if bb.pxd is not None else None
+    if pxd_gp is not None:
+        R.check(pxd_gp.ret in (None, "", "object"), "C05.DEFAULT-PRIORITY", gp.qualname + ":pxd", "%s:%d" % (bb.module.pxd_path.replace(R.repo.root + "/", ""), pxd_gp.line),
+                "the declared result type of get_priority() is object",
+                "batching.pxd declares `%s get_priority()`: in the compiled build a user override that returns something else (an int, a float "
+                "timestamp) makes the scheduler's selection raise TypeError" % pxd_gp.ret)
+    # the selection loop does not narrow what it iterates either (a user batch class is any BatchBase subclass; that is fine) - but a typed
+    # priority local would: no C type on the priority variables
+    sel_px = ro.select_method().pxd()
+    if sel_px is not None:
+        for ln_, t_ in sorted(sel_px.locals.items()):
+            if "priority" in ln_:
+                R.check(t_ in (None, "", "object"), "C05.DEFAULT-PRIORITY", "%s:pxd:%s" % (ro.select_method().qualname, ln_), R.site(ro.select_method()),
+                        "the priority local %s is untyped" % ln_, "the priority local %s is declared %s: user priorities of another type raise TypeError" % (ln_, t_))
+    # nothing is flushed for a computation that is over: batches scheduled by tasks that were abandoned do not outlive it
+    from .c08 import batch_residue
+    batch_residue(R, ro, "C05.RESIDUE")
     # FLUSH-GUARD -----------------------------------------------------------------------
     bb = ro.BatchBase
     fl = bb.methods.get("flush")
@@ -363,8 +383,9 @@ def _flush_guard(R, fl, rule):
 
 def item_once(R, comp, rule):
     cfg = cfg_of(comp)
-    loops = [n for n in ast.walk(comp.node) if isinstance(n, ast.For) and q.dotted(n.iter) == "self.items"
-             and isinstance(n.target, ast.Name)]
+    def over_items(it):
+        return common.iterates_items(comp.node, it)
+    loops = [n for n in ast.walk(comp.node) if isinstance(n, ast.For) and over_items(n.iter) and isinstance(n.target, ast.Name)]
     R.need(len(loops) >= 1, "idiom: BatchBase._computed no longer loops over self.items")
     cnt = 0
     for loop in loops:
@@ -385,8 +406,10 @@ def item_once(R, comp, rule):
             cnt += 1
             p = kit.path_avoiding_guard(cfg, [node], guard, N, sources=starts)
             R.check(p is None, rule, "%s:%s" % (comp.qualname, q.stmt_key(call)[:40]), R.site(comp, call),
-                    "an item is completed by the batch only when it is not computed yet",
-                    "an item that the flush already completed can be completed again (FutureIsAlreadyComputed inside the batch's completion)",
+                    "an item is completed by the batch only when it is not computed yet (tested right before, inside the loop)",
+                    "an item that is already completed - by the flush, or meanwhile by the _cancel() hook or another item's on_computed subscriber - can "
+                    "be completed again (FutureIsAlreadyComputed inside the batch's completion: the remaining items stay pending, the batch's subscribers "
+                    "are never told)",
                     cfg.fmt_path(p) if p else None)
     R.need(cnt >= 1, "idiom: no item completion found in BatchBase._computed")
     # the items are still there when the completion walks them: the list is emptied only after the batch is computed (i.e. after
